@@ -93,7 +93,8 @@ Proof. exact categorize_hyps_sat. Qed.
 
 (* without the hypothesis the statement is false on the faithful model: the
    recorded witness (tuna 100 g, chicken of the sea 200 g, one aisle line
-   tuna|chicken of the sea) shows 200 g under canned/tuna instead of 300 g *)
+   tuna|chicken of the sea) shows 100 g under canned/tuna instead of 300 g
+   (the list is consumed in key order, tuna comes last and overwrites) *)
 Definition C10_categorize_full : Prop := forall T inf l,
   sane T = true -> NoDup (map fst l) ->
   exists c, categorize false inf l = Done c /\ categorize_conserves T inf l c.
